@@ -27,6 +27,9 @@ def jobs(tier):
     J.append(seq(len=4 if q else 5, keys=2, hmap=1, mm=-1, flags=-1, custom=0, init=2, minb=2, maxb=4, workers=16))
     # the whole parameter grid of cds_lfht_new (5760 combinations incl. rejected ones)
     J.append(seq(len=1 if q else 2, keys=2, hmap=2, init=-1, minb=-1, maxb=-1, flags=-1, mm=-1, custom=-1, workers=16))
+    # chunk allocator with more than 1024 chunks requested (max / min > MAX_CHUNK_TABLE): the chunk size must be enlarged
+    J.append(seq(len=2, keys=1, hmap=1, alpha_seq=1, nresize=8, big=1, init=64, minb=1, maxb=2048, mm=1, workers=8, horizon=3000000))
+    J.append(seq(len=2, keys=1, hmap=1, alpha_seq=1, nresize=8, big=1, init=64, minb=2, maxb=2048, mm=1, custom=1, workers=8, horizon=3000000))
     # lazy resizes: chain-length driven and counter driven, worker interleaved (1 preemption)
     J.append(seq(len=6 if q else 7, keys=4, hmap=1, flags=1, nresize=3, workers=8))
     J.append(seq("1,0,0,0", len=4 if q else 5, keys=4, hmap=1, flags=1, nresize=3, workers=8))
